@@ -52,6 +52,9 @@ func NewCBCHMAC(key []byte, newBlockCipher func([]byte) (cipher.Block, error)) (
 		hash = sha512.New384
 	case 32:
 		hash = sha512.New
+	default:
+		// the key may come from the peer (an unwrapped content encryption key of any length)
+		return nil, errors.New("square/go-jose: invalid key size for CBC+HMAC")
 	}
 
 	return &cbcAEAD{
